@@ -22,7 +22,7 @@ from concurrent.futures import ProcessPoolExecutor
 from typing import Dict, List, Optional, Tuple
 
 from ..loader import AnalysisError, repo_root
-from ..report import Checker
+from ..report import Checker, unlisted_violations
 
 
 def normalised(path: str) -> str:
@@ -142,7 +142,7 @@ def run_variant(v: dict) -> dict:
         mod = importlib.import_module(f"sa.props.{v['prop'].lower()}")
         try:
             mod.run(ck)
-            vio = ck.violations
+            vio = unlisted_violations(ck)      # a listed known finding of the tree is not what the variant is about
             if vio:
                 res["outcome"] = "violation"
                 res["rules"] = sorted({o.rule for o in vio})
@@ -150,7 +150,7 @@ def run_variant(v: dict) -> dict:
             else:
                 res["outcome"] = "holds"
         except AnalysisError as e:
-            vio = ck.violations
+            vio = unlisted_violations(ck)
             if vio:     # a violation recorded before the analysis gave up is still a report
                 res["outcome"] = "violation"
                 res["rules"] = sorted({o.rule for o in vio})
@@ -203,7 +203,7 @@ def run_many(variants: List[dict], jobs: int = 16) -> List[Tuple[dict, dict, str
 def selftest_for(ck: Checker, seed: int = 0):
     """Thorough tier: validate the property's checker on the current tree. Raises AnalysisError on failure."""
     from .variants import VARIANTS
-    if ck.violations:
+    if unlisted_violations(ck):
         ck.extra["selftest"] = {"skipped": "the current tree already violates a rule; variants are edits of a clean tree"}
         return
     mine = [v for v in VARIANTS if v["prop"] == ck.prop_id]
